@@ -1198,7 +1198,7 @@ class Router:
                     return None
             # Step 10a: decrement RHL
             new_rhl = basic_header.rhl - 1
-            if new_rhl == 0:
+            if new_rhl <= 0:
                 # Step 10a(i): RHL reached 0 → discard
                 return None
             updated_basic_header = basic_header.set_rhl(new_rhl)
